@@ -250,11 +250,11 @@ func ensureBuild(verbose bool) {
 		}
 		gosum, _ := os.ReadFile(filepath.Join(repoDir, "go.sum"))
 		os.WriteFile(filepath.Join(hdir, "go.sum"), gosum, 0o644)
-		out, err = run(hdir, env, goBin, "test", "-c", "-vet=off", "-tags", "replexport", "-o", filepath.Join(buildDir, "harness.test.tmp"), ".")
+		out, err = run(hdir, env, goBin, "test", "-c", "-trimpath", "-vet=off", "-tags", "replexport", "-o", filepath.Join(buildDir, "harness.test.tmp"), ".")
 		if err != nil {
 			// the REPL engine needs the generated export file; without it every other engine still builds
 			var out2 string
-			out2, err = run(hdir, env, goBin, "test", "-c", "-vet=off", "-o", filepath.Join(buildDir, "harness.test.tmp"), ".")
+			out2, err = run(hdir, env, goBin, "test", "-c", "-trimpath", "-vet=off", "-o", filepath.Join(buildDir, "harness.test.tmp"), ".")
 			if err == nil {
 				fmt.Fprintf(os.Stderr, "vcheck: built without the REPL engine:\n%s\n", tail(out, 10))
 			} else {
